@@ -155,7 +155,7 @@ def cut_patterns(frames, tier, streamlen_class):
         ones = sorted(near)
     for i in ones:
         yield ("1cut", i), [data[:i], data[i:]]
-    if n <= (320 if tier == "thorough" else 180):
+    if n <= (320 if tier == "thorough" else 120):
         for i in range(1, n):
             for j in range(i + 1, n):
                 yield ("2cut", i, j), [data[:i], data[i:j], data[j:]]
